@@ -14,7 +14,7 @@
                then releases) | "reader" (discovers our emulated Type 3 tag, sends k further commands, leaves)
                | "ioerror" / "unsupported" (the local device raises IOError / UnsupportedTargetError on discovery)
      k         see env
-     termAt    index of the terminate() poll that is the first to return true (Never: stays false)
+     termAt    index of the terminate() poll that is the first to return true
    One action per observable step of the code (src/nfc/clf/__init__.py:501-659): every callback, every
    terminate() poll, every discovery attempt (sense / llc.activate / listen), LED switch, presence check,
    LLC exchange, served command, and the return.
@@ -30,9 +30,11 @@
      activation through on-release (documented under 'on-release') and connect() returns its value.  *)
 EXTENDS Naturals, Sequences, FiniteSets, TLC
 
-CONSTANTS KMax,        \* budgets 0..KMax
-          TMax,        \* termAt \in 0..TMax \cup {Never}
-          Never        \* a number larger than every poll index that can occur
+CONSTANTS MaxOpts,     \* at most this many of rdwr/llcp/card are given (3 everywhere except in the witness runs)
+          KMax,        \* budgets 0..KMax
+          TMax         \* termAt \in 0..TMax  (a call whose terminate() never turns true does not end unless an
+                       \* activation ends it; every finite prefix of such a call is a prefix of a call with a
+                       \* larger termAt, so only finite values are explored)
 
 Opt == {"rdwr", "llcp", "card"}
 Envs == {"nothing", "tag", "peerT", "peerI", "reader", "ioerror", "unsupported"}
@@ -73,9 +75,12 @@ Mk(r, l, c, b, ro, e, k, t) ==
      conn |-> [o \in Opt |-> CASE o = "rdwr" -> r.conn [] o = "llcp" -> l.conn [] o = "card" -> c.conn],
      rel |-> [o \in Opt |-> CASE o = "rdwr" -> r.rel [] o = "llcp" -> l.rel [] o = "card" -> c.rel],
      beep |-> b, role |-> ro, env |-> e, k |-> k, termAt |-> t]
-Cfgs == UNION {UNION {UNION {UNION {
-            {Mk(r, l, c, b, ro, e, k, t) : b \in BeepOf(r), ro \in RoleOf(l), k \in KOf(e, KMax), t \in 0..TMax \cup {Never}}
-            : e \in Envs} : c \in Variants(TRUE)} : l \in Variants(FALSE)} : r \in Variants(TRUE)}
+Terms == 0..TMax
+IsCfg(x) ==
+    \E r \in Variants(TRUE), l \in Variants(FALSE), c \in Variants(TRUE) :
+      /\ Cardinality({v \in {<<1, r.has>>, <<2, l.has>>, <<3, c.has>>} : v[2]}) <= MaxOpts
+      /\ \E e \in Envs :
+        \E b \in BeepOf(r), ro \in RoleOf(l), k \in KOf(e, KMax), t \in Terms : x = Mk(r, l, c, b, ro, e, k, t)
 
 VARIABLES cfg,
           pc,          \* control state
@@ -95,7 +100,7 @@ VARIABLES cfg,
 vars == <<cfg, pc, role, left, polls, envk, gone, found, cb, ret, led, err, termSeen, after, lateWork>>
 
 Init ==
-    /\ cfg \in Cfgs
+    /\ IsCfg(cfg)
     /\ pc = "start"
     /\ role = ""
     /\ left = {}
@@ -189,7 +194,7 @@ TermNow == polls >= cfg.termAt
 \* `while not terminate():` of the main loop
 Poll ==
     /\ pc = "poll"
-    /\ polls' = IF cfg.termAt = Never THEN polls ELSE polls + 1
+    /\ polls' = polls + 1
     /\ termSeen' = (termSeen \/ TermNow)
     /\ IF TermNow THEN Goto("ret") /\ UNCHANGED role
        ELSE /\ Goto(PhaseFrom(1))
@@ -246,7 +251,7 @@ LedOn ==
 \* `while not terminate() and tag.is_present:`
 PresPoll ==
     /\ pc = "pres_poll"
-    /\ polls' = IF cfg.termAt = Never THEN polls ELSE polls + 1
+    /\ polls' = polls + 1
     /\ termSeen' = (termSeen \/ TermNow)
     /\ IF TermNow THEN Goto("led_off") ELSE Goto("presence")
     /\ Step("Term")
@@ -306,7 +311,7 @@ RunFirst ==
 \* `while not terminate():` of the symmetry loop; as target a link that is already gone is noticed after it
 RunPoll ==
     /\ pc = "run_poll"
-    /\ polls' = IF cfg.termAt = Never THEN polls ELSE polls + 1
+    /\ polls' = polls + 1
     /\ termSeen' = (termSeen \/ TermNow)
     /\ IF TermNow \/ (role = "target" /\ gone) THEN Goto("run_end") ELSE Goto("run_x")
     /\ Step("Term")
@@ -353,7 +358,7 @@ CardConnect ==
 
 ServePoll ==
     /\ pc = "serve_poll"
-    /\ polls' = IF cfg.termAt = Never THEN polls ELSE polls + 1
+    /\ polls' = polls + 1
     /\ termSeen' = (termSeen \/ TermNow)
     /\ IF TermNow THEN Goto("card_rel") ELSE Goto("serve")
     /\ Step("Term")
@@ -440,9 +445,7 @@ W_RetFalse == ~(pc = "done" /\ ret = "False")
 W_RetNoneNoOpt == ~(pc = "done" /\ ret = "None" /\ left = {} /\ cb # <<>>)
 W_TermInPresence == ~(pc = "led_off" /\ termSeen /\ led)
 W_ReleaseFalseLoops == ~(pc = "poll" /\ cb # <<>> /\ cb[Len(cb)].n = "release" /\ ~cb[Len(cb)].r)
-W_TwoActivations == ~(NumOf(cb, ConnT) >= 2)
 W_TagVanished == ~(pc = "led_off" /\ gone /\ ~termSeen)
 W_PeerReleased == ~(pc = "run_end" /\ gone /\ ~termSeen /\ role = "target")
 W_ReaderLeft == ~(pc = "card_rel" /\ gone /\ ~termSeen)
-W_AllThree == ~(left = Opt /\ pc = "card_listen")
 =============================================================================
